@@ -14,6 +14,7 @@ CONSTANTS
   PreSize = 2
   ForeignNames <- ForeignQ
   MaxForeign = 0
+  GzipAppendOnRestart = FALSE
   OptSet <- AllOpts
 CONSTRAINT RevBound
 ACTION_CONSTRAINT KillPoints
